@@ -15,6 +15,13 @@ import Sigc.AdaptLemmas
   `unwrap_reference<T_return>::type` everywhere in the current code); `impl_eq_spec` is proved for the table as it
   is, `decay_witness` / `nullary_decay_witness` show that it fails as soon as one row goes through a by-value type
   (`std::common_type_t`, `auto`).
+
+  Declared parameter types (`Par`): `retype(f)` hands `f` every argument converted to the declared type and then bound
+  (`castPar`), also when the parameter is a `const T&` / `T&&` bound to a converting temporary
+  (`retype_converts_then_binds`).  Exceptions have a type and catchers may be partial: `exception_catch(f, c)` returns
+  `c()` when `c` handles what `f` throws (`exception_catch_throw`), otherwise the exception leaves the adaptor unchanged
+  and reaches the next enclosing `exception_catch` or the caller, also through a slot and an emission
+  (`exception_catch_partial_propagates`).
 -/
 namespace Sigc.C10
 open Sigc.Adapt
@@ -48,7 +55,7 @@ theorem bind_insert (i : Nat) (bs args : List Val) (f : FExpr) (h : i ≤ args.l
   cases (callImpl f (args.take i ++ bs ++ args.drop i)) with
   | mk log res => cases res <;> rfl
 
-example : (callImpl (.un (.bind (some 1) [.num .int 7, .num .int 8]) (.leaf 0 [.int, .int, .int, .int] none false))
+example : (callImpl (.un (.bind (some 1) [.num .int 7, .num .int 8]) (.leaf 0 [.int, .int, .int, .int] none none))
     [.num .int 1, .num .int 2]).log = [⟨0, [.num .int 1, .num .int 7, .num .int 8, .num .int 2]⟩] := by decide
 
 /-- `bind(f, b...)` appends the bound values -/
@@ -59,7 +66,7 @@ theorem bind_append (bs args : List Val) (f : FExpr) :
   cases (callImpl f (args ++ bs)) with
   | mk log res => cases res <;> rfl
 
-example : (callImpl (.un (.bind none [.num .int 7, .num .int 8]) (.leaf 0 [.int, .int, .int] none false))
+example : (callImpl (.un (.bind none [.num .int 7, .num .int 8]) (.leaf 0 [.int, .int, .int] none none))
     [.num .int 1]).log = [⟨0, [.num .int 1, .num .int 7, .num .int 8]⟩] := by decide
 
 /-- `hide<I>(f)` calls `f` without argument `I` — every arity, every `I < n` -/
@@ -70,7 +77,7 @@ theorem hide_erase (i : Nat) (args : List Val) (f : FExpr) (h : i < args.length)
   cases (callImpl f (args.eraseIdx i)) with
   | mk log res => cases res <;> rfl
 
-example : (callImpl (.un (.hide (some 1)) (.leaf 0 [.int, .int, .int] none false))
+example : (callImpl (.un (.hide (some 1)) (.leaf 0 [.int, .int, .int] none none))
     [.num .int 1, .num .int 2, .num .int 3, .num .int 4]).log = [⟨0, [.num .int 1, .num .int 3, .num .int 4]⟩] := by
   decide
 
@@ -83,7 +90,7 @@ theorem hide_last (args : List Val) (f : FExpr) (h : args ≠ []) :
   cases (callImpl f args.dropLast) with
   | mk log res => cases res <;> rfl
 
-example : (callImpl (.un (.hide none) (.leaf 0 [.int, .int] none false))
+example : (callImpl (.un (.hide none) (.leaf 0 [.int, .int] none none))
     [.num .int 1, .num .int 2, .num .int 3]).log = [⟨0, [.num .int 1, .num .int 2]⟩] := by decide
 
 /-- the code equals the documentation for every functor expression (adaptors nested to any depth) and all arguments -/
@@ -94,7 +101,7 @@ theorem impl_eq_spec (e : FExpr) (args : List Val) (h : wellTyped e args.length 
 -- hide(bind<1>(compose(s, g), 2.7) ) applied to three arguments: non-trivial, well-typed
 example :
     let e := FExpr.un (.hide none) (.un (.bind (some 1) [.num .dbl 27])
-      (.compose1 (.leaf 1 [.long] (some .long) false) (.leaf 0 [.int, .int, .int] (some .dbl) false)))
+      (.compose1 (.leaf 1 [.long] (some .long) none) (.leaf 0 [.int, .int, .int] (some .dbl) none)))
     wellTyped e 3 = true ∧
     callImpl e [.num .int 1, .num .int 5, .num .int 9]
       = ⟨[⟨0, [.num .int 1, .num .int 2, .num .int 5]⟩, ⟨1, [.num .long 20]⟩], .ok (.num .long 120)⟩ := by
@@ -119,15 +126,107 @@ theorem result_clauses (f : FExpr) (args : List Val) (v : Val) (h : (callImpl f 
   · intro c; simp [callImpl_exceptionCatch, Outcome.orCatch, h]
   · intro s; simp [callImpl_compose1, Outcome.andThen, h]
 
-example : (callImpl (.leaf 3 [.dbl] (some .dbl) false) [.num .dbl 27]).res = .ok (.num .dbl 3025) := by decide
+example : (callImpl (.leaf 3 [.dbl] (some .dbl) none) [.num .dbl 27]).res = .ok (.num .dbl 3025) := by decide
 
-/-- `exception_catch(f, c)` returns `c()` exactly when `f` throws -/
-theorem exception_catch_throw (f c : FExpr) (args : List Val) (h : (callImpl f args).res = .threw) :
+/-- `exception_catch(f, c)` returns `c()` exactly when `f` throws (an exception that the catcher handles: every
+    exception for a catcher that does not rethrow; see `exception_catch_partial_propagates` for the other case) -/
+theorem exception_catch_throw (f c : FExpr) (args : List Val) (x : Exc) (h : (callImpl f args).res = .threw x)
+    (hc : c.handles x = true) :
     (callImpl (.exceptionCatch f c) args).res = (callImpl c []).res
     ∧ (callImpl (.exceptionCatch f c) args).log = (callImpl f args).log ++ (callImpl c []).log := by
-  simp [callImpl_exceptionCatch, Outcome.orCatch, h]
+  simp [callImpl_exceptionCatch, Outcome.orCatch, h, hc]
 
-example : (callImpl (.leaf 3 [.int] (some .int) true) [.num .int 1]).res = .threw := by decide
+example : (callImpl (.leaf 3 [.int] (some .int) (some .k1)) [.num .int 1]).res = .threw .k1
+    ∧ (FExpr.leaf 4 [] (some .int) none).handles .k1 = true ∧ (FExpr.leaf 4 [] (some .int) none).handles .k2 = true
+    ∧ (FExpr.pcatch 4 (some .int) [.k1]).handles .k1 = true := by decide
+
+/-- **Partial catchers.**  A catcher that rethrows the exception in flight and handles only the types it knows
+    (`try { throw; } catch (K1&) {…}`) makes `exception_catch(f, c)` return `c()` when `f` throws one of those types,
+    and lets every other exception leave the adaptor unchanged: it reaches the next enclosing `exception_catch`, whose
+    catcher returns its value if it handles that type, or — through `slot::operator()` and `signal::emit` as well —
+    the caller.  Nothing is recorded after the throwing target in that case (the catcher's body does not run). -/
+theorem exception_catch_partial_propagates (f c : FExpr) (args : List Val) (x : Exc)
+    (h : (callImpl f args).res = .threw x) (hc : c.handles x = false) :
+    callImpl (.exceptionCatch f c) args = callImpl f args
+    ∧ (∀ c2, c2.handles x = true →
+        (callImpl (.exceptionCatch (.exceptionCatch f c) c2) args).res = (callImpl c2 []).res
+        ∧ (callImpl (.exceptionCatch (.exceptionCatch f c) c2) args).log = (callImpl f args).log ++ (callImpl c2 []).log)
+    ∧ (∀ c2, c2.handles x = false → (callImpl (.exceptionCatch (.exceptionCatch f c) c2) args).res = .threw x)
+    ∧ (∀ s : SlotM, s.f = .exceptionCatch f c → s.callable = true →
+        (s.call args).res = .threw x ∧ (viaSignal s.ret [s] args).res = .threw x
+        ∧ (viaSignal s.ret [s] args).log = (callImpl f args).log) := by
+  have h0 : callImpl (.exceptionCatch f c) args = callImpl f args := by
+    simp [callImpl_exceptionCatch, Outcome.orCatch, h, hc]
+  refine ⟨h0, ?_, ?_, ?_⟩
+  · intro c2 h2
+    rw [callImpl_exceptionCatch, h0]
+    simp [Outcome.orCatch, h, h2]
+  · intro c2 h2
+    rw [callImpl_exceptionCatch, h0]
+    simp [Outcome.orCatch, h, h2]
+  · intro s hf hcl
+    have hcall : callIt s args = ⟨(callImpl f args).log, .threw x⟩ := by
+      rw [callIt_eq, hf, h0]
+      simp [Outcome.mapRes, h, Res.map]
+    refine ⟨by simp [SlotM.call, hcl, hcall], ?_⟩
+    cases hr : s.ret with
+    | none => simp [viaSignal, emitVoid, hcl, sigCall, hcall, Res.map]
+    | some t => simp [viaSignal, emitValue, List.dropWhile, hcl, sigCall, hcall]
+
+-- f throws K2; the K1-only catcher lets it pass (nothing recorded after f), an outer total catcher handles it,
+-- an outer K1-only catcher does not; f throws K1: the K1-only catcher handles it; slot and signal routes
+example :
+    let f (x : Exc) := FExpr.leaf 0 [.int] (some .long) (some x)
+    let pc := FExpr.pcatch 1 (some .long) [.k1]
+    let tot := FExpr.leaf 2 [] (some .long) none
+    let s : SlotM := ⟨false, false, some .long, .exceptionCatch (f .k2) pc⟩
+    wellTyped (.exceptionCatch (.exceptionCatch (f .k2) pc) tot) 1 = true
+    ∧ pc.handles .k2 = false ∧ tot.handles .k2 = true
+    ∧ callImpl (.exceptionCatch (f .k2) pc) [.num .int 5] = ⟨[⟨0, [.num .int 5]⟩], .threw .k2⟩
+    ∧ callImpl (.exceptionCatch (f .k1) pc) [.num .int 5] = ⟨[⟨0, [.num .int 5]⟩, ⟨1, []⟩], .ok (.num .long 100)⟩
+    ∧ callImpl (.exceptionCatch (.exceptionCatch (f .k2) pc) tot) [.num .int 5]
+        = ⟨[⟨0, [.num .int 5]⟩, ⟨2, []⟩], .ok (.num .long 200)⟩
+    ∧ (callImpl (.exceptionCatch (.exceptionCatch (f .k2) pc) pc) [.num .int 5]).res = .threw .k2
+    ∧ (s.call [.num .int 5]).res = .threw .k2 ∧ (viaSignal s.ret [s] [.num .int 5]).res = .threw .k2 := by decide
+
+/-- a catcher that handles nothing it is given must not turn the call into anything else: with the documentation
+    (`callSpec`) as with the code, for every well-typed expression — `impl_eq_spec` covers partial catchers -/
+example :
+    let e := FExpr.exceptionCatch (.leaf 0 [.int] (some .long) (some .k2)) (.pcatch 1 (some .long) [.k1])
+    wellTyped e 1 = true ∧ callSpec e [.num .int 5] = ⟨[⟨0, [.num .int 5]⟩], .threw .k2⟩ := by decide
+
+/-- **retype converts, then binds.**  `retype(f)` hands `f` each argument converted to `f`'s declared parameter type
+    (`static_cast<T_type>(a)` inside the call expression): a parameter declared `const T&` / `T&&` that needs a
+    converting temporary (different arithmetic type, `Str` from a number) is bound to a temporary that lives until the
+    call returns, so the target receives the *converted value*; a `const T&` parameter fed a reference result of type
+    `T` is that very object.  Every arity, every mix of declared kinds. -/
+theorem retype_converts_then_binds (ps : List Par) (f : FExpr) (args : List Val) :
+    callImpl (.un (.retype ps) f) args = callImpl f (List.zipWith castPar ps args)
+    ∧ (∀ id ret thr, (callImpl (.un (.retype ps) (.qleaf id ps ret thr)) args).log
+        = [⟨id, List.zipWith castPar ps (List.zipWith castPar ps args)⟩])
+    ∧ (∀ (m : PMode) (t s : Ty) (n : Int), castPar ⟨m, t⟩ (.num s n) = convNum t s n)
+    ∧ (∀ t c cell n, castPar ⟨.cref, t⟩ (.ref c t cell n) = .ref true t cell n) := by
+  refine ⟨?_, ?_, ?_, ?_⟩
+  · rw [callImpl_un]
+    simp only [argsImpl, Outcome.mapRes]
+    cases callImpl f (List.zipWith castPar ps args) with
+    | mk log res => cases res <;> rfl
+  · intro id ret thr
+    rw [callImpl_un]
+    rfl
+  · intro m t s n
+    cases m <;> rfl
+  · intro t c cell n
+    simp [castPar, bindCRef]
+
+-- retype(ptr_fun(&f)) with f(const long&, Str&&, const Str&, double) called with (int 5, long 7, double 2.9, int 3):
+-- the target receives long 5, Str 7, Str 2, double 3.0 — the converted values (converting again changes nothing)
+example :
+    let ps : List Par := [⟨.cref, .long⟩, ⟨.rref, .str⟩, ⟨.cref, .str⟩, ⟨.val, .dbl⟩]
+    let e := FExpr.un (.retype ps) (.qleaf 0 ps (some .long) none)
+    wellTyped e 4 = true
+    ∧ callImpl e [.num .int 5, .num .long 7, .num .dbl 29, .num .int 3]
+        = ⟨[⟨0, [.num .long 5, .num .str 7, .num .str 2, .num .dbl 30]⟩], .ok (.num .long 37)⟩ := by decide
 
 /-- every row of the result table of the current code is `decltype(auto)` or a declared return type — none decays -/
 theorem resultMode_forwarding : ∀ k, resultMode k ≠ .decays := resultMode_ne_decays
@@ -140,7 +239,7 @@ theorem result_identity (f : FExpr) (args : List Val) (c : Bool) (t : Ty) (cell 
     (∀ nd : Node, nd.forwards = true → (callImpl f (argsImpl nd args)).res = .ok (.ref c t cell n) →
         (callImpl (.un nd f) args).res = .ok (.ref c t cell n))
     ∧ (∀ k, (callImpl f args).res = .ok (.ref c t cell n) → (callImpl (.exceptionCatch f k) args).res = .ok (.ref c t cell n))
-    ∧ (∀ g, (callImpl g args).res = .threw → (callImpl f []).res = .ok (.ref c t cell n) →
+    ∧ (∀ g x, (callImpl g args).res = .threw x → f.handles x = true → (callImpl f []).res = .ok (.ref c t cell n) →
         (callImpl (.exceptionCatch g f) args).res = .ok (.ref c t cell n))
     ∧ (∀ g v, (callImpl g args).res = .ok v → (callImpl f [v]).res = .ok (.ref c t cell n) →
         (callImpl (.compose1 f g) args).res = .ok (.ref c t cell n))
@@ -157,7 +256,7 @@ theorem result_identity (f : FExpr) (args : List Val) (c : Bool) (t : Ty) (cell 
     simp only [Outcome.mapRes, h, Res.map]
     cases nd <;> simp [Node.forwards] at hk <;> rfl
   · intro k h; simp [callImpl_exceptionCatch, Outcome.orCatch, h]
-  · intro g hg h; simp [callImpl_exceptionCatch, Outcome.orCatch, hg, h]
+  · intro g x hg hx h; simp [callImpl_exceptionCatch, Outcome.orCatch, hg, hx, h]
   · intro g v hg h; simp [callImpl_compose1, Outcome.andThen, hg, h]
   · intro g1 g2 v1 v2 h1 h2 h; simp [callImpl_compose2, Outcome.andThen, h1, h2, h]
   · intro c' h; simp [callImpl_un, argsImpl, Outcome.mapRes, h, Res.map, resOf]
@@ -166,13 +265,13 @@ theorem result_identity (f : FExpr) (args : List Val) (c : Bool) (t : Ty) (cell 
 -- bind<0>(exception_catch(hide(track_object(f, t)), c), 4) where f returns `long&` to its pool object 0:
 -- the result is that reference; when f throws it is the catcher's reference (object 1)
 example :
-    let f (thr : Bool) := FExpr.un (.bind (some 0) [.num .int 4]) (.exceptionCatch
-      (.un (.hide none) (.un (.trackObj 1) (.rleaf 0 [.int] false .long thr))) (.rleaf 1 [] false .long false))
-    wellTyped (f false) 1 = true
-    ∧ (callImpl (f false) [.num .int 9]).res = .ok (.ref false .long 0 4)
-    ∧ (callImpl (f true) [.num .int 9]).res = .ok (.ref false .long 1 100)
-    ∧ (callImpl (.un (.retypeReturnRef true .long) (f false)) [.num .int 9]).res = .ok (.ref true .long 0 4)
-    ∧ (callImpl (.un (.retypeReturn .dbl) (f false)) [.num .int 9]).res = .ok (.num .dbl 40) := by decide
+    let f (thr : Option Exc) := FExpr.un (.bind (some 0) [.num .int 4]) (.exceptionCatch
+      (.un (.hide none) (.un (.trackObj 1) (.rleaf 0 [.int] false .long thr))) (.rleaf 1 [] false .long none))
+    wellTyped (f none) 1 = true
+    ∧ (callImpl (f none) [.num .int 9]).res = .ok (.ref false .long 0 4)
+    ∧ (callImpl (f (some .k2)) [.num .int 9]).res = .ok (.ref false .long 1 100)
+    ∧ (callImpl (.un (.retypeReturnRef true .long) (f none)) [.num .int 9]).res = .ok (.ref true .long 0 4)
+    ∧ (callImpl (.un (.retypeReturn .dbl) (f none)) [.num .int 9]).res = .ok (.num .dbl 40) := by decide
 
 /-- **Bound references.**  `bind_return(f, std::ref(x))` / `std::cref(x)` returns the reference to `x` itself (zero
     copies) — called without arguments (the separate nullary overload) or with arguments, for every `f` that returns
@@ -191,11 +290,11 @@ theorem bound_result_identity (f : FExpr) (c : Bool) (t : Ty) (cell : Nat) (n : 
 -- bind_return(&nullary, std::cref(x))() and hide(bind_return(&nullary, std::cref(x)))(42): the reference to x (pool
 -- object 100 holding 7), not a copy
 example :
-    let br := FExpr.un (.bindReturn (.ref true .long 100 7)) (.leaf 0 [] none false)
+    let br := FExpr.un (.bindReturn (.ref true .long 100 7)) (.leaf 0 [] none none)
     wellTyped br 0 = true ∧ wellTyped (.un (.hide none) br) 1 = true
     ∧ (callImpl br []).res = .ok (.ref true .long 100 7)
     ∧ (callImpl (.un (.hide none) br) [.num .int 42]).res = .ok (.ref true .long 100 7)
-    ∧ (callImpl (.compose1 (.leaf 1 [.long] (some .long) false) br) []).res = .ok (.num .long 107) := by decide
+    ∧ (callImpl (.compose1 (.leaf 1 [.long] (some .long) none) br) []).res = .ok (.num .long 107) := by decide
 
 /-- the result table of a code in which `exception_catch` hands both results through
     `static_cast<std::common_type_t<...>>` (both overloads) -/
@@ -208,17 +307,17 @@ def tableDecay : ResSite → ResMode
     returning `long&` yields a copy (a value) where the documentation yields the reference to `f`'s object — also
     below `bind`; value-returning functors do not see the difference. -/
 theorem decay_witness :
-    let f := FExpr.rleaf 0 [.int] false .long false
-    let c := FExpr.rleaf 1 [] false .long false
+    let f := FExpr.rleaf 0 [.int] false .long none
+    let c := FExpr.rleaf 1 [] false .long none
     let e := FExpr.exceptionCatch f c
     wellTyped e 1 = true
     ∧ (callSpec e [.num .int 3]).res = .ok (.ref false .long 0 3)
     ∧ (callImplT tableDecay e false [.num .int 3]).res = .ok (.num .long 3)
     ∧ (callImplT tableDecay (.un (.bind none [.num .int 3]) (.un (.hide none) e)) false [.num .int 5]).res = .ok (.num .long 5)
     ∧ callImpl e [.num .int 3] = callSpec e [.num .int 3]
-    ∧ callImplT tableDecay (.exceptionCatch (.leaf 0 [.int] (some .long) false) (.leaf 1 [] (some .long) false)) false
+    ∧ callImplT tableDecay (.exceptionCatch (.leaf 0 [.int] (some .long) none) (.leaf 1 [] (some .long) none)) false
           [.num .int 3]
-        = callSpec (.exceptionCatch (.leaf 0 [.int] (some .long) false) (.leaf 1 [] (some .long) false)) [.num .int 3] := by
+        = callSpec (.exceptionCatch (.leaf 0 [.int] (some .long) none) (.leaf 1 [] (some .long) none)) [.num .int 3] := by
   decide
 
 /-- the result table of a code in which the nullary overload `bind_return_functor::operator()()` is declared `auto` -/
@@ -231,8 +330,8 @@ def tableAuto0 : ResSite → ResMode
     and the call through `slot_call::call_it` (which names the template overload explicitly) still yield the reference —
     which is why only direct and nested nullary calls expose it. -/
 theorem nullary_decay_witness :
-    let br0 := FExpr.un (.bindReturn (.ref true .long 100 7)) (.leaf 0 [] none false)
-    let br1 := FExpr.un (.bindReturn (.ref true .long 100 7)) (.leaf 0 [.int] none false)
+    let br0 := FExpr.un (.bindReturn (.ref true .long 100 7)) (.leaf 0 [] none none)
+    let br1 := FExpr.un (.bindReturn (.ref true .long 100 7)) (.leaf 0 [.int] none none)
     (callSpec br0 []).res = .ok (.ref true .long 100 7)
     ∧ (callImplT tableAuto0 br0 false []).res = .ok (.num .long 7)
     ∧ (callImplT tableAuto0 (.un (.hide none) br0) false [.num .int 42]).res = .ok (.num .long 7)
@@ -253,12 +352,12 @@ theorem compose_passes_result (s g g1 g2 : FExpr) (args : List Val) :
 -- compose(s, g1, g2)(3): g1 returns long& (its pool object 0), g2 returns const long& (object 1); the setter's
 -- `const long&` parameters are those two objects; a `const long&` parameter fed from an int& result is a temporary
 example :
-    let e := FExpr.compose2 (.pleaf 2 [.long, .long] (some .long) false) (.rleaf 0 [.int] false .long false)
-      (.rleaf 1 [.int] true .long false)
+    let e := FExpr.compose2 (.pleaf 2 [.long, .long] (some .long) none) (.rleaf 0 [.int] false .long none)
+      (.rleaf 1 [.int] true .long none)
     wellTyped e 1 = true
     ∧ (callImpl e [.num .int 3]).log
         = [⟨0, [.num .int 3]⟩, ⟨1, [.num .int 3]⟩, ⟨2, [.ref true .long 0 3, .ref true .long 1 103]⟩]
-    ∧ (callImpl (.compose1 (.pleaf 1 [.long] none false) (.rleaf 0 [.int] false .int false)) [.num .int 3]).log
+    ∧ (callImpl (.compose1 (.pleaf 1 [.long] none none) (.rleaf 0 [.int] false .int none)) [.num .int 3]).log
         = [⟨0, [.num .int 3]⟩, ⟨1, [.num .long 3]⟩] := by decide
 
 /-- the result table of a code in which `compose2_functor` first stores the getters' results in `auto` locals -/
@@ -269,16 +368,16 @@ def tableAutoLocals : ResSite → ResMode
 /-- **Getter-result witness.**  With `auto` locals in `compose2_functor::operator()` the setter no longer receives the
     getters' objects but copies; getters returning values (and the one-getter `compose`) show no difference. -/
 theorem getter_decay_witness :
-    let s := FExpr.pleaf 2 [.long, .long] (some .long) false
-    let e := FExpr.compose2 s (.rleaf 0 [.int] false .long false) (.rleaf 1 [.int] true .long false)
-    let ev := FExpr.compose2 s (.leaf 0 [.int] (some .long) false) (.leaf 1 [.int] (some .long) false)
+    let s := FExpr.pleaf 2 [.long, .long] (some .long) none
+    let e := FExpr.compose2 s (.rleaf 0 [.int] false .long none) (.rleaf 1 [.int] true .long none)
+    let ev := FExpr.compose2 s (.leaf 0 [.int] (some .long) none) (.leaf 1 [.int] (some .long) none)
     (callSpec e [.num .int 3]).log
         = [⟨0, [.num .int 3]⟩, ⟨1, [.num .int 3]⟩, ⟨2, [.ref true .long 0 3, .ref true .long 1 103]⟩]
     ∧ (callImplT tableAutoLocals e false [.num .int 3]).log
         = [⟨0, [.num .int 3]⟩, ⟨1, [.num .int 3]⟩, ⟨2, [.num .long 3, .num .long 103]⟩]
     ∧ callImplT tableAutoLocals ev false [.num .int 3] = callSpec ev [.num .int 3]
-    ∧ callImplT tableAutoLocals (.compose1 (.pleaf 2 [.long] none false) (.rleaf 0 [.int] false .long false)) false [.num .int 3]
-        = callSpec (.compose1 (.pleaf 2 [.long] none false) (.rleaf 0 [.int] false .long false)) [.num .int 3] := by
+    ∧ callImplT tableAutoLocals (.compose1 (.pleaf 2 [.long] none none) (.rleaf 0 [.int] false .long none)) false [.num .int 3]
+        = callSpec (.compose1 (.pleaf 2 [.long] none none) (.rleaf 0 [.int] false .long none)) [.num .int 3] := by
   decide
 
 /-- direct call, call through a slot, emission of a signal holding that single slot: same received arguments,
@@ -315,7 +414,7 @@ theorem routes_agree (e : FExpr) (args : List Val) (s : SlotM) (hf : s.f = e) (h
         | ok v => simp [emitLoop]
 
 example :
-    let e := FExpr.un (.bind (some 0) [.num .int 4]) (.leaf 0 [.int, .dbl] (some .dbl) false)
+    let e := FExpr.un (.bind (some 0) [.num .int 4]) (.leaf 0 [.int, .dbl] (some .dbl) none)
     let s : SlotM := ⟨false, false, some .dbl, e⟩
     s.callable = true ∧ (direct e [.num .dbl 27]).res.map (retConv s.ret) = (direct e [.num .dbl 27]).res
       ∧ direct e [.num .dbl 27] = ⟨[⟨0, [.num .int 4, .num .dbl 27]⟩], .ok (.num .dbl 85)⟩ := by decide
